@@ -6,6 +6,7 @@ import ErdosVerif.Lemmas.StrlCap
 import ErdosVerif.Lemmas.StrlExact
 import ErdosVerif.Lemmas.StrlMax
 import ErdosVerif.Lemmas.StrlStruct
+import ErdosVerif.Lemmas.StrlSpan
 namespace ErdosVerif.C20
 open ErdosVerif.Strl
 
@@ -121,6 +122,36 @@ theorem structure_sound_partial (ctx : Ctx) (name : String) (cs : List Expr) (σ
   simp only [noStaticLt] at hns
   exact list_structure ctx σ cs [] 0 hb hns hvars (fun c h => hcons c (List.mem_append_left _ h))
 
+/-- **LessThan: first child ends before the second starts (on the placements).** In every
+tree the C++ compiles without an exception (`wf`) and in which no `LessThan` is decided at
+compile time, for every assignment that satisfies the compiled model, at every node
+(`spanClause`): if the node provides utility and has indicator 1, its reported start is no
+later than its reported end and every placement it reports lies in between (`Span`); and for a
+satisfied `LessThan`, every placement reported by the first child ends no later than any
+placement reported by the second child starts (`LtOrder`). -/
+theorem span_sound_partial (ctx : Ctx) (name : String) (cs : List Expr) (σ : Assign)
+    (hw : wf ctx (.obj name cs) = none)
+    (hns : noStaticLt ctx [] (.obj name cs) = true)
+    (hfeas : (compile ctx (.obj name cs)).feasible σ = true) :
+    forallNodesL (spanClause ctx σ) [] 0 cs := by
+  rw [compile_obj] at hfeas
+  simp only [MipModel.feasible, Bool.and_eq_true, List.all_eq_true] at hfeas
+  obtain ⟨hvars, hcons⟩ := hfeas
+  simp only [noStaticLt] at hns
+  unfold wf at hw
+  have hb : buildErr (.obj name cs) = none := by
+    split at hw
+    · simp at hw
+    · assumption
+  have hwl : wfList ctx [] 0 cs = none := by
+    rw [hb] at hw
+    simp only at hw
+    split at hw
+    · simp at hw
+    · exact hw
+  simp only [buildErr] at hb
+  exact (list_span ctx σ cs [] 0 hb hwl hns hvars (fun c h => hcons c (List.mem_append_left _ h))).2
+
 /-- Non-vacuity of `capacity_sound_partial` and `choose_exact`: an aligned tree (granularity 2, starts 0 and 2), a feasible
 assignment that places `A` and `B` on one slot each of the 2-slot partition `P0` during [2,4). -/
 def ctxOK : Ctx := ⟨[⟨0, "P0", 2⟩], [0], 0, 2⟩
@@ -134,10 +165,10 @@ def σOK : Assign := fun v =>
   else if v = ⟨[0], .maxEnd⟩ ∨ v = ⟨[1], .minEnd⟩ then 4 else 0
 
 example : (compile ctxOK treeOK).feasible σOK = true ∧ alignedTo ctxOK.gran 0 treeOK = true ∧
-    buildErr treeOK = none ∧ noStaticLt ctxOK [] treeOK = true ∧
+    buildErr treeOK = none ∧ wf ctxOK treeOK = none ∧ noStaticLt ctxOK [] treeOK = true ∧
     (populate ctxOK σOK treeOK).placements.map (·.name) = ["A", "B"] ∧
     usageAt (populate ctxOK σOK treeOK).placements 0 2 = 2 := by
-  refine ⟨by decide, by decide, by decide, by decide, by decide, by decide⟩
+  refine ⟨by decide, by decide, by decide, by decide, by decide, by decide, by decide⟩
 
 /-! ### Witnesses -/
 
